@@ -8,6 +8,7 @@ mod model;
 mod ops;
 mod sessions;
 mod sweep;
+mod tz;
 mod util;
 
 fn main() {
@@ -23,6 +24,11 @@ fn main() {
         "replay" => cases::main(&args[2..]),
         "record" => sessions::main(&args[2..]),
         "record-cron" => cron::record(&args[2..]),
+        "record-tz" => tz::record(&args[2..]),
+        "fuzz-tz" => tz::fuzz(&args[2..]),
+        "local-resolve" => tz::local_resolve(),
+        "tz-abstract" => tz::abstract_of(&args[2..]),
+        "tz-hostile-bytes" => tz::hostile_bytes(&args[2..]),
         other => {
             eprintln!("unknown sub-command {}", other);
             std::process::exit(2);
